@@ -577,12 +577,19 @@ func (w *vpWorld) doAlloc(o vpOp) {
 		}
 		w.flag(func() { w.allocErr++ })
 		w.c.Trace("alloc %s -> err %v (partial %d)", pid, err, len(res))
-		// daemon.AllocIP: roll back whatever was returned
-		_ = w.mgr.Release(context.Background(), cni, &ReleaseRequest{NetworkResources: res})
-		if held != nil {
-			// the runtime tears the sandbox down after a failed ADD: DEL with the stored record
-			w.release(pid, cni)
+		// daemon.AllocIP: roll back whatever was returned, except what the pod's stored record
+		// already holds (a failed repeat of an ADD does not take the earlier allocation away)
+		var rollback []NetworkResource
+		for _, r := range res {
+			if lr, ok := r.(*LocalIPResource); ok && held != nil &&
+				(lr.IP.IPv4 == held.IP.IPv4 && lr.IP.IPv6 == held.IP.IPv6) {
+				continue
+			}
+			rollback = append(rollback, r)
 		}
+		_ = w.mgr.Release(context.Background(), cni, &ReleaseRequest{NetworkResources: rollback})
+		// the pod keeps holding what its acknowledged ADD returned (the ledger is unchanged):
+		// nobody else may be given that address, whatever happened to the failed repeat
 		return
 	}
 	w.flag(func() { w.allocOK++ })
@@ -807,6 +814,7 @@ func (w *vpWorld) waitQuiescent(d time.Duration) bool {
 type vpUsage struct {
 	idleBalancer   int // as Manager.syncPool counts it
 	idleNonPrimary int // idle, valid, not an interface's primary address
+	idlePrimaries  int // interfaces whose primary address is idle (each can absorb one unit of surplus per pass)
 	inUse          int
 }
 
@@ -825,6 +833,9 @@ func (w *vpWorld) usage() vpUsage {
 			for _, ip := range set {
 				if !ip.InUse() && ip.Valid() && !ip.Primary() {
 					u.idleNonPrimary++
+				}
+				if !ip.InUse() && ip.Primary() {
+					u.idlePrimaries++
 				}
 			}
 		}
@@ -853,8 +864,8 @@ func (w *vpWorld) settle() bool {
 		}
 		u := w.usage()
 		upperOK := u.idleBalancer <= cfg.MaxIdle || u.idleNonPrimary == 0
-		if pass >= 25 && u.idleNonPrimary <= cfg.MaxIdle {
-			upperOK = true // known corner: a pinned primary absorbs the surplus, see checkBand
+		if pass >= 25 && u.idleBalancer-cfg.MaxIdle <= u.idlePrimaries {
+			upperOK = true // known corner: idle primaries absorb the surplus, see checkBand
 		}
 		lowerOK := u.idleBalancer >= cfg.MinIdle || !w.lowerReachable(u)
 		if upperOK && lowerOK && pass >= 1 {
@@ -958,20 +969,18 @@ func (w *vpWorld) checkAgreement(final bool) {
 func (w *vpWorld) checkBand() {
 	cfg := w.s.Cfg
 	u := w.usage()
-	// Upper bound. Weak form (always asserted): idle addresses that are not an interface's
-	// primary address are within max idle - a primary can only leave together with its
-	// interface. Strong form: the idle reserve as the balancer counts it is within max idle
-	// unless only primaries are left. The strong form fails on the unchanged tree in a
-	// listed corner (known finding C07-primary-absorbs-dispose): Local.Dispose counts the
-	// no-op disposal of an idle primary as a disposal, so an undisposable interface's
-	// primary can absorb the surplus forever.
-	if u.idleNonPrimary > cfg.MaxIdle {
-		w.failf("C07", "after settling, %d idle non-primary addresses exceed max idle %d (idle as counted by the balancer: %d)", u.idleNonPrimary, cfg.MaxIdle, u.idleBalancer)
-	} else if !(u.idleBalancer <= cfg.MaxIdle || u.idleNonPrimary == 0) {
-		if !w.noGuard && vt.Known("C07-primary-absorbs-dispose") {
+	// Upper bound: the idle reserve as the balancer counts it is within max idle, unless only
+	// primaries are left (a primary can only leave together with its interface).
+	// Listed corner (known finding C07-primary-absorbs-dispose): Local.Dispose counts the no-op
+	// disposal of an idle primary as a disposal, so every interface whose primary is idle
+	// absorbs one unit of the surplus on every pass; a surplus not larger than the number of
+	// such interfaces can therefore stay forever. A larger surplus must still be trimmed.
+	surplus := u.idleBalancer - cfg.MaxIdle
+	if surplus > 0 && u.idleNonPrimary > 0 {
+		if surplus <= u.idlePrimaries && !w.noGuard && vt.Known("C07-primary-absorbs-dispose") {
 			w.c.Label("known:C07-primary-absorbs-dispose")
 		} else {
-			w.failf("C07", "after settling, idle=%d (non-primary %d) exceeds max idle %d although a non-primary idle address could still be removed", u.idleBalancer, u.idleNonPrimary, cfg.MaxIdle)
+			w.failf("C07", "after settling, idle=%d (non-primary %d, interfaces with an idle primary %d) exceeds max idle %d although a non-primary idle address could still be removed", u.idleBalancer, u.idleNonPrimary, u.idlePrimaries, cfg.MaxIdle)
 		}
 	}
 	if u.idleBalancer < cfg.MinIdle && w.lowerReachable(u) {
